@@ -184,6 +184,17 @@ Theorem C19_addresses_resolve : forall c md evs tab s,
 Proof. exact arun_resolves. Qed.
 Print Assumptions C19_addresses_resolve.
 
+(* Records carry the names of the functions that were called: the symbolic events the automaton
+   runs on ([sym_events], see C19_addresses_resolve: its hook addresses resolve to these symbols
+   through the written table) have, event by event, the name computed from the function the
+   interpreter reported - whatever the table already holds and however code objects were created,
+   freed and their addresses re-used in between (the model identifies a function by nothing but
+   that name). *)
+Theorem C19_names_are_the_called_functions : forall md evs tab,
+  map (fun e => (e_kind e, s_name (e_sym e))) (snd (sym_events md tab evs)) = called_names md evs.
+Proof. exact sym_events_names. Qed.
+Print Assumptions C19_names_are_the_called_functions.
+
 (* The callback as a whole, on interpreter-level events (uftrace_trace_python from module
    initialisation: call-depth test, naming, classification, address table, filters, library policy):
    for every configuration, every sequence of call forests over a table of functions whose names
